@@ -502,6 +502,11 @@ func (fs *readOnlyFsInternal) insertDirEntry(
 			WrapWithLog(logger, errors.New("fsEntryStore updates are not expected: /"+pth))
 	}
 
+	if _, listed := fs.readDirMap[dirFsEntry.iNode]; !listed {
+		// a directory without children (the root of an empty bundle) still has a listing
+		fs.readDirMap[dirFsEntry.iNode] = nil
+	}
+
 	if dirFsEntry.iNode != fuseops.RootInodeID {
 		key = formLookupKey(parentInode, path.Base(pth))
 
